@@ -227,7 +227,14 @@ func (d *Decoder) readTypedList(tag byte) (interface{}, error) {
 		return nil, newCodecError("readTypedList", "can't find list type %s", listTyp)
 	}
 
-	aryValue := reflect.MakeSlice(aryType, length, length)
+	// a long declared length is not trusted for allocation: such a list grows
+	// element by element, like a variable-length one
+	grow := isVariableArr || length > _maxPrealloc
+	prealloc := length
+	if grow {
+		prealloc = 0
+	}
+	aryValue := reflect.MakeSlice(aryType, prealloc, prealloc)
 	holder := d.addDecoderRef(aryValue)
 
 	for j := 0; j < length || isVariableArr; j++ {
@@ -241,7 +248,7 @@ func (d *Decoder) readTypedList(tag byte) (interface{}, error) {
 
 		if item == nil {
 			// a null element keeps the zero value of the element type
-			if isVariableArr {
+			if grow {
 				aryValue = reflect.Append(aryValue, reflect.Zero(aryType.Elem()))
 				holder.change(aryValue)
 			}
@@ -249,7 +256,7 @@ func (d *Decoder) readTypedList(tag byte) (interface{}, error) {
 		}
 
 		v := EnsureRawValue(item)
-		if isVariableArr {
+		if grow {
 			// convert like a fixed-length element (int32 -> int16, *T -> T, ...)
 			elem := reflect.New(aryType.Elem()).Elem()
 			SetValue(elem, v)
@@ -293,7 +300,14 @@ func (d *Decoder) readUntypedList(tag byte) (interface{}, error) {
 		return nil, nil
 	}
 
-	ary := make([]interface{}, length)
+	// a long declared length is not trusted for allocation: such a list grows
+	// element by element, like a variable-length one
+	grow := isVariableArr || length > _maxPrealloc
+	prealloc := length
+	if grow {
+		prealloc = 0
+	}
+	ary := make([]interface{}, prealloc)
 	aryValue := reflect.ValueOf(ary)
 	holder := d.addDecoderRef(aryValue)
 
@@ -307,7 +321,7 @@ func (d *Decoder) readUntypedList(tag byte) (interface{}, error) {
 			return nil, newCodecError("readUntypedList", err)
 		}
 
-		if isVariableArr {
+		if grow {
 			elem := EnsureRawValue(it)
 			if !elem.IsValid() {
 				// a null element
